@@ -9,7 +9,7 @@ BUDGET = {"quick": dict(n=140, shards=10, nops=10), "thorough": dict(n=3000, sha
 
 def gen_world(rng, pid):
     inner_fields = [["a", "scalar", "Int64"], ["b", "array", "Float64", [None]]]
-    if rng.random() < 0.5: inner_fields.append(["m", "array", "Float64", [2, rng.choice([2, 3])]])
+    if rng.random() < 0.5: inner_fields.append(["m", "array", "Float64", [2, rng.choice([2, 3])]] + ([{"order": [1, 0]}] if pid == "C18" and rng.random() < 0.5 else []))
     if rng.random() < 0.5: inner_fields.append(["q", "scalar", "Float64"])
     if rng.random() < 0.4: inner_fields.append(["name", "string"])
     if pid == "C18" and rng.random() < 0.5: inner_fields.append(["b2", "array", "Float64", [None]])     # a second variable-length part
@@ -31,7 +31,7 @@ def gen_world(rng, pid):
         classes["InnerD"] = {"fields": dfields, "base": "Inner"}
         if "rename" in inner: classes["InnerD"]["rename"] = dict(inner["rename"])
         order.append("InnerD")
-    with_refs = pid in ("C18",) and rng.random() < 0.55
+    with_refs = (pid == "C18" and rng.random() < 0.55) or (pid == "C20" and rng.random() < 0.4)      # (C20: references stay unset)
     if with_refs and rng.random() < 0.4:
         classes["Mid"] = {"fields": [["ri", "ref", "Inner"], ["k", "scalar", "Int64"]]}; order.append("Mid")
     outer_fields = [["inner", "nested", "Inner"], ["inner2", "nested", "Inner"], ["s", "scalar", "Float64"], ["v", "array", "Float64", [None]], ["n", "scalar", "Int32"]]
@@ -131,7 +131,7 @@ def gen_case(rng, nops, pid):
     def new(name, cname, buf):
         vals = M.defaults(cname, rng)
         M.objs[name] = {"cls": cname, "buf": buf, "fields": vals, "movable": True}
-        push({"op": "new", "name": name, "cls": cname, "buf": buf, "vals": to_ctor_vals(world, cname, vals)})
+        push({"op": "new", "name": name, "cls": cname, "buf": buf, "vals": to_ctor_vals(world, cname, vals), "pynames": pid in ("C18", "C19") and rng.random() < 0.5})
     new("i0", "Inner", "B0")
     if any(f[0] == "b2" for f in world["classes"]["Inner"]["fields"]):
         # an Inner of the SAME total size whose two variable-length parts have each other's lengths
@@ -221,7 +221,7 @@ def gen_case(rng, nops, pid):
             src = rng.choice(inners) if f[2] == "Inner" else "m0"
             M.objs[n]["fields"][f[0]] = copy.deepcopy(M.objs[src]["fields"])
             push({"op": "set", "obj": n, "via": [], "field": f[0], "value": {"obj": src}, "kind": "assign-copy"})
-        elif r < 0.70 and outers and inners and any(f[1] == "ref" for f in spec_of("Outer")["fields"]):
+        elif r < 0.70 and pid != "C20" and outers and inners and any(f[1] == "ref" for f in spec_of("Outer")["fields"]):
             # a dressed object assigned to a reference field: shared; refused across buffers (and then nothing changes)
             n = rng.choice(outers); src = rng.choice(inners)
             if rng.random() < 0.3:       # the reference is reset: it denotes nothing afterwards
